@@ -1,6 +1,6 @@
 (** C09 — boolean equality on A-normal forms and on operation traces, used by the correspondence
     check (model of anf.rs against the A-normal form the compiler really built) *)
-From Goml Require Import Common.Base C09.Anf C09.Order.
+From Goml Require Import Common.Base C09.Anf C09.Order C09.Flat C09.Sem.
 Open Scope N_scope.
 
 Definition imm_eqb (a b : imm) : bool :=
@@ -97,3 +97,6 @@ Fixpoint evs_eqb (l l' : list ev) : bool :=
     result (model = real, order of real = order of source) *)
 Definition corr (body : lexpr) (n0 : N) (real : aexpr) : bool * bool :=
   (aexpr_eqb (fst (anf_fn (depth body) body n0)) real, evs_eqb (ord_a real) (ord_src body)).
+
+(** the hypothesis of [anf_preserves_meaning], decided on a real lifted body *)
+Definition covered (body : lexpr) : bool := wfb body.
